@@ -61,7 +61,10 @@ def run(ctx):
         "longest, one parity) - single-bit flips and 2..32-bit bursts (every start-bit class, front/middle/end) in the "
         "CRC-covered bytes applied to the decrypted image and re-encrypted, every single-bit and random change of the "
         "stored CRC, every truncation, wire-level bit flips, random datagrams of lengths 0..1500; AEAD: bit flips, "
-        "bursts and truncations anywhere. Fed only when the check fails (guaranteed classes by construction, the rest "
+        "bursts and truncations anywhere; cleartext-shaped datagrams for both paths and every class: every length "
+        "0..header+16, laid out as the frames the demultiplexer behind the gate would read (FEC data / parity / OOB / raw "
+        "KCP x live or foreign conv x sn 0 or other x known peer or unknown address), at offset 0, behind nonceSize bytes "
+        "and behind the whole crypto header, plus the bare payload and the unencrypted image of valid datagrams. Fed only when the check fails (guaranteed classes by construction, the rest "
         "by an oracle that calls the cipher and hash/crc32 itself); non-trivial = " + str(extra.get("nontrivial_rule")))
     ctx.assumptions += [
         "AEAD authenticity: Open succeeds only on outputs of Seal under the same nonce (premise aead_authentic of "
